@@ -7,6 +7,8 @@
 /* printf is variadic (see prelude.h on snprintf/fprintf): dropped */
 #undef printf
 #define printf(...) ((int)0)
+#undef sprintf
+#define sprintf(...) ((int)0)	/* the tools format file names only */
 extern unsigned long long g_tok_calls, g_tok_bad; extern int g_exit_status8; extern unsigned g_getopt_calls; extern const char *g_tok_last;
 extern int optind; extern char *optarg;
 static char *pipe_cmd;	/* tentative definition; the real one is in tools/jwt-util.h */
@@ -20,6 +22,17 @@ __CPROVER_requires(argc >= 1 && argc <= 0x1000000)
 __CPROVER_requires(__CPROVER_is_fresh(argv, ((size_t)argc + 1) * sizeof(char *)))
 __CPROVER_requires(g_tok_calls == 0 && g_tok_bad == 0 && optind == 1)
 __CPROVER_assigns(pipe_cmd, optind, optarg, g_tok_calls, g_tok_bad, g_exit_status8, g_getopt_calls, g_tok_last)
+__CPROVER_ensures(0 == 1)
+;
+
+/* option tables of the other tools: main is run up to its first getopt_long() call, whose
+ * CHECKED precondition (stubs/tools_env.c, -DVERIF_GETOPT_STOP ends the run there) compares
+ * the short option string with the long-option table. */
+int contract_C20_tool_main_tables(int argc, char *argv[])
+__CPROVER_requires(argc >= 1 && argc <= 0x1000000)
+__CPROVER_requires(__CPROVER_is_fresh(argv, ((size_t)argc + 1) * sizeof(char *)))
+__CPROVER_requires(optind == 1 && g_tok_calls == 0 && g_tok_bad == 0)
+__CPROVER_assigns(optind, optarg, g_exit_status8, g_getopt_calls)
 __CPROVER_ensures(0 == 1)
 ;
 #endif
